@@ -85,8 +85,12 @@ fn case(ctx: &mut Ctx, index: u64, rng: &mut Rng) {
             let m = Msg::method_call(serial, PATHS[p], Some(PROPS), "GetAll").with_body(vec![Val::S("t.gen.Nope".into())]);
             (m, Want::Error, "GetAll(t.gen.Nope) [unknown interface]".into())
         } else if r < 80 {
-            // Set with a value of the right type
-            let v = gen_arg(rng, &sig);
+            // Set with a value of the right type; one time in six the value the property already holds (still a Set:
+            // it must be announced like any other, and a read-only property must still refuse it)
+            let v = if rng.chance(1, 6) { store[&(p, i)][pm.name].clone() } else { gen_arg(rng, &sig) };
+            if normalise(&v) == normalise(&store[&(p, i)][pm.name]) {
+                ctx.count("class:set-of-the-current-value", 1);
+            }
             let m = Msg::method_call(serial, PATHS[p], Some(PROPS), "Set").with_body(vec![Val::S(im.name.into()), Val::S(pm.name.into()), Val::V(Box::new(v.clone()))]);
             if !pm.write {
                 (m, Want::Error, format!("Set({}, {}) [read-only]", im.name, pm.name))
